@@ -8,6 +8,7 @@ open Queue Dyn Comp Bbt
 inductive Rnd (K : Type) where
   | f (x : K)                 -- rng.random()
   | i (hi : Nat) (x : Nat)    -- rng.integers(hi)
+  | perm (l : List Int)       -- the order in which Python iterated a set (AddDelete.add: `for j in es`), as observed
 
 /-- loci as the dynamics sees them -/
 inductive Loc where
@@ -32,6 +33,13 @@ structure U (K : Type) where
   err : Option String := none
   nloci : Nat := 0
 
+/-- how an addition-deletion process is combined with a disease model (adddelete.py, cookbook "dynamic population") -/
+inductive AdMode where
+  | alone
+  | inherit (inst S R : Nat)   -- one object is both (`class DynamicSIR(SIR, AddDelete)`), or the completed sequence recipe
+  | seq (inst S R : Nat)       -- the cookbook's named sequence, verbatim: only addNewNode / removeNode talk to the disease model
+deriving Repr
+
 /-- handler bodies, as emitted by the translator / the scripted process -/
 inductive Act (K : Type) where
   | ccLeft (inst c : Nat)            -- (n, _) = e ; changeCompartment(n, c)      (also used for node elements)
@@ -51,12 +59,15 @@ inductive Act (K : Type) where
   | rmEdge (inst : Nat) (n m : Node)
   | observe                          -- Monitor.observe: time and len() of every locus
   | trial (p : K) (inst c : Nat) (thenOcc : Bool)  -- SIvR.infect: if rng.random() > p then changeCompartment, (occ, hit)
+  | adAdd (loc c : Nat) (mode : AdMode)            -- AddDelete.add
+  | adDel (loc : Nat) (mode : AdMode)              -- AddDelete.delete
 
 structure Cfg (K : Type) where
   comp : Comp.Cfg
   perEl : List (Nat × K × Nat)
   fixed : List (Nat × K × Nat)
   varInf : Option (Nat × Nat) := none       -- variable infection: (SI locus, handler)
+  varAt : Nat := 0                          -- … whose per-edge entries follow the first `varAt` static entries (its own process's)
   handlers : Nat → List (Act K)
   /-- `atEquilibrium` of each component: maximum time, and loci that must all be empty as an alternative -/
   eq : List (K × Option (List Nat))
@@ -82,6 +93,84 @@ def drawT : T Elem → U K → Option (Elem × U K)
       match popI u (ls + 1 + rs) with
       | none => none
       | some (i, u') => if i < ls then drawT l u' else if i = ls then some (d, u') else drawT r u'
+
+def popP (u : U K) : Option (List Int × U K) :=
+  match u.rng with
+  | .perm l :: rest => some (l, { u with rng := rest })
+  | _ => none
+
+/-! ### addition-deletion (adddelete.py) -/
+
+/-- `i = order + 1; while i in g.nodes(): i = i + 1` — at most `fuel` increments -/
+def firstFree (ns : List Node) : Int → Nat → Int
+  | i, 0 => i
+  | i, fuel + 1 => if ns.contains i then firstFree ns (i + 1) fuel else i
+
+/-- `newNodeName()` (order-many increments always suffice: `C19.fresh_name`) -/
+def newName (g : Net) : Node := firstFree g.nodes (g.nodes.length + 1) g.nodes.length
+
+/-- `while True: j = ns.draw(); if (j not in es) and (i != j): break` — every pass but a draw from a one-element locus
+    consumes a random integer, so the passes are bounded by the random stream; `none`: the real loop does not return -/
+def pickOne (s : LSet) (i : Node) (es : List Node) : Nat → U K → Option (Node × U K)
+  | 0, _ => none
+  | fuel + 1, u =>
+    match drawT s.t u with
+    | none => none
+    | some (e, u') => if !es.contains e.1 && e.1 != i then some (e.1, u') else pickOne s i es fuel u'
+
+/-- `for _ in range(c): …; es.add(j)` -/
+def pickMany (s : LSet) (i : Node) : Nat → List Node → U K → Option (List Node × U K)
+  | 0, es, u => some (es, u)
+  | c + 1, es, u =>
+    match pickOne s i es (u.rng.length + 1) u with
+    | none => none
+    | some (j, u') => pickMany s i c (es ++ [j]) u'
+
+/-- the edge `(i, j)` added by `self.addEdge` of the add-delete process -/
+def adEdge (cfg : Comp.Cfg) (mode : AdMode) (i : Node) (w : W) (j : Node) : W :=
+  match mode with
+  | .inherit inst _ _ => Comp.addEdge cfg w inst i j
+  | _ => { w with net := w.net.addEdge i j }
+
+/-- the world after `addNewNode()` -/
+def adNewNode (cfg : Comp.Cfg) (loc : Nat) (mode : AdMode) (w : W) : W :=
+  let i := newName w.net
+  let w := updLocus { w with net := w.net.addNode i } loc (·.add (eN i))
+  match mode with
+  | .alone => w
+  | .inherit inst S _ | .seq inst S _ => setCompartment cfg w inst i S
+
+/-- `AddDelete.add`; `none`: the real call does not return (or the observed iteration order is not one of the chosen set) -/
+def adAdd? (cfg : Comp.Cfg) (loc c : Nat) (mode : AdMode) (u : U K) : Option (U K) :=
+  let i := newName u.w.net
+  let w := adNewNode cfg loc mode u.w
+  match pickMany (w.loci loc) i c [] { u with w := w } with
+  | none => none
+  | some (es, u1) =>
+    match popP u1 with
+    | none => none
+    | some (order, u2) =>
+      if order.isPerm es then some { u2 with w := order.foldl (adEdge cfg mode i) u2.w } else none
+
+def adAdd (cfg : Comp.Cfg) (loc c : Nat) (mode : AdMode) (u : U K) : U K :=
+  match adAdd? cfg loc c mode u with
+  | some u' => u'
+  | none => { u with err := some "AddDelete.add: cannot draw c distinct other nodes (the real loop does not return), or bad iteration order" }
+
+def adDelW (cfg : Comp.Cfg) (loc : Nat) (mode : AdMode) (n : Node) (w : W) : W :=
+  let w1 := match mode with
+    | .alone => w
+    | .inherit inst _ R | .seq inst _ R => changeCompartment cfg w inst n R
+  let w2 := match mode with
+    | .inherit inst _ _ => Comp.removeNode cfg w1 inst n
+    | _ => { w1 with net := w1.net.removeNode n, comp := fun j x => if x = n then none else w1.comp j x }
+  updLocus w2 loc (·.discard (eN n))
+
+def adDel (cfg : Comp.Cfg) (loc : Nat) (mode : AdMode) (n : Node) (u : U K) : U K :=
+  { u with w := adDelW cfg loc mode n u.w,
+           occ := u.occ.filter (fun o => !(o.2.1 == n || o.2.2 == n)),
+           tocc := u.tocc.filter (fun o => !(o.1 == n || o.2.1 == n)),
+           hit := u.hit.filter (fun h => h.1 != n) }
 
 def logU (u : U K) (s : String) : U K := { u with log := u.log.push s }
 
@@ -144,6 +233,8 @@ def runActs (cfg : Cfg K) : List (Act K) → K → Elem → Prog K (U K) Elem
   | .observe :: rest, t, e =>
     .get fun u => .put { u with mon := { times := u.mon.times ++ [t], vals := u.mon.vals ++ [lociSizes u] } }
       (runActs cfg rest t e)
+  | .adAdd loc c mode :: rest, t, e => .get fun u => .put (adAdd cfg.comp loc c mode u) (runActs cfg rest t e)
+  | .adDel loc mode :: rest, t, e => .get fun u => .put (adDel cfg.comp loc mode e.1 u) (runActs cfg rest t e)
   | .trial p inst c thenOcc :: rest, t, e =>
     .get fun u =>
       match popF u with
@@ -169,10 +260,12 @@ def mkProc (cfg : Cfg K) (tap : Fired K Elem Loc → St K (U K) Elem → U K) : 
   atEq := fun s t => cfg.eq.all fun c =>
     decide (c.1 ≤ t) || (match c.2 with | some ls => ls.all (fun l => (s.u.w.loci l).size == 0) | none => false)
   perEl := fun u =>
-    cfg.perEl.map (fun x => (Loc.l x.1, x.2.1, x.2.2)) ++
-    (match cfg.varInf with
-     | none => []
-     | some (si, h) => (u.w.loci si).toList.filterMap (fun e => (infectivity u e).map (fun p => (Loc.single si e, p, h))))
+    let stat := cfg.perEl.map (fun x => (Loc.l x.1, x.2.1, x.2.2))
+    match cfg.varInf with
+    | none => stat
+    | some (si, h) =>
+      stat.take cfg.varAt ++ (u.w.loci si).toList.filterMap (fun e => (infectivity u e).map (fun p => (Loc.single si e, p, h)))
+        ++ stat.drop cfg.varAt
   fixed := fun _ => cfg.fixed.map (fun x => (Loc.l x.1, x.2.1, x.2.2))
   size := fun u l => match l with | .l i => (u.w.loci i).size | .single i e => if (u.w.loci i).mem e then 1 else 0
   elems := fun u l => match l with | .l i => (u.w.loci i).toList | .single _ e => [e]
